@@ -16,7 +16,7 @@ LEVEL = "exploration"
 TECHNIQUE = "numpy differential over all shapes <=3x3 / vectors <=4 with LINE-coverage monitor of the dimension rules"
 RULE = ("shapes: vectors 1-4, matrices r x c with r,c in 1..3 (13 shapes). elementwise + - * /: all 169 shape pairs x element kinds "
         "(converter/constant/stock) + array-scalar and scalar-array forms + named vectors/matrices (matching and mismatching names); "
-        "dot: all 169 shape pairs; aggregates sum prod mean median stddev rank size on every shape; nested two-operator forms; vector dot products of all 16 length pairs under 11 scalar wrappers (abs max min ** > If round neg + * sqrt); "
+        "dot: all 169 shape pairs; aggregates sum prod mean median stddev rank size on every shape; nested two-operator forms; dot products whose operand is an arrayed expression, arrays combined with scalar dot products, aggregates over clamped flows / stocks with rates / re-assigned entries, matrices re-dimensioned after a first use; vector dot products of all 16 length pairs under 11 scalar wrappers (abs max min ** > If round neg + * sqrt); "
         "results read through element[i](t), element[i][j](t) and plot(return_df). value draws: 2 (quick) / 6 (thorough) incl. negatives. "
         "distinct_nontrivial = distinct (form, shapes, kinds) combinations that were accepted and whose numpy result has at least two "
         "different entries (or is a scalar aggregate of >=2 different entries).")
@@ -31,6 +31,8 @@ SHAPES = VEC + MAT
 OPS = {"+": np.add, "-": np.subtract, "*": np.multiply, "/": np.divide}
 AGGS = ["sum", "prod", "mean", "median", "stddev", "rank", "size"]
 KINDS = ["converter", "constant", "stock"]
+DOTEXPR = ["M.dot(A+B)", "M.dot((A+B)*2.0)", "(A+B).dot(C)", "A.dot(B+C)", "M.dot(A-B)", "M.dot(A*B)", "V - A.dot(B)", "V + A.dot(B)", "W - A.dot(B)",
+           "A.dot(B) - V", "V * A.dot(B)", "M.dot(N+N)", "(M+M).dot(A)"]
 WRAPPERS = ["abs", "max0", "min9", "pow2", "gt0", "if", "round", "neg", "plus", "times", "sqrtabs"]
 
 
@@ -99,6 +101,16 @@ def gen_cases(tier, seed):
                     cases.append(dict(form="elem_nested", wrapper=w, op=op, s1=list(s1), draw=d))
             for (s1, s2) in (((2, 3), (3,)), ((2, 3), (2,)), ((3,), (3, 2)), ((2,), (3, 2))):
                 cases.append(dict(form="dot_nested_mv", wrapper=w, s1=list(s1), s2=list(s2), draw=d))
+        # a dot product whose operand is itself an arrayed expression; an array minus / plus a scalar dot product
+        for tmpl in DOTEXPR:
+            cases.append(dict(form="dot_expr", tmpl=tmpl, draw=d))
+        # aggregates over flows (clamped at zero), over stocks that have a numeric equation, and over an entry re-assigned later
+        for agg in AGGS:
+            for variant in ("flow_negative", "stock_rate", "reassigned"):
+                cases.append(dict(form="agg_variant", agg=agg, variant=variant, rank=2 if agg == "rank" else None, draw=d))
+        # an array that is re-dimensioned after it has been used once
+        for tmpl in ("redim_dot_ok", "redim_dot_mismatch", "redim_rank", "redim_sum"):
+            cases.append(dict(form="redim", tmpl=tmpl, draw=d))
         for s1 in SHAPES:
             for agg in AGGS:
                 ranks = [-1, 1, 2, 99] if agg == "rank" else [None]
@@ -231,6 +243,47 @@ def run_case(case):
             B = np.where(np.abs(B) < 0.2, 1.5, B)
             expected = np.vectorize(lambda x: float(wrap_np(case["wrapper"], float(x))))(OPS[case["op"]](A, B))
             key = ("elem_nested", case["wrapper"], case["op"], tuple(case["s1"]))
+        elif form == "dot_expr":
+            A, B, C = values([2], d, 21), values([2], d, 22), values([2], d, 23)
+            M, N = values([2, 2], d, 24), values([2, 2], d, 25)
+            V, W = values([2], d, 26), values([2, 2], d, 27)
+            try:
+                expected = eval(case["tmpl"].replace(".dot(", "@(").replace("A@(", "A@(").replace("M@(", "M@(").replace(").dot", ")@"), {}, dict(A=A, B=B, C=C, M=M, N=N, V=V, W=W))
+            except Exception as e:
+                return dict(verdict="inconclusive", witness=dict(harness="reference", error=repr(e)))
+            expected = np.asarray(expected, dtype=float)
+            key = ("dot_expr", case["tmpl"])
+        elif form == "agg_variant":
+            a = case["agg"]
+            base = [2.0, -5.0, 1.0 + 0.5 * d]
+            if case["variant"] == "flow_negative":
+                vals = [max(0.0, x) for x in base]
+            elif case["variant"] == "stock_rate":
+                vals = [10.0 + x * 1.0 for x in base]       # level at t=1: initial 10 + rate * 1
+                t = 1.0
+            else:
+                vals = [2.0, 10.0, 1.0 + 0.5 * d]           # entry 1 re-assigned to 10 after the aggregate was defined
+            A = np.array(vals)
+            if a == "size":
+                expected = np.array(3.0)
+            elif a == "rank":
+                expected = np.array(sorted(vals, reverse=True)[case["rank"] - 1])
+            else:
+                expected = np.array({"sum": np.sum, "prod": np.prod, "mean": np.mean, "median": np.median, "stddev": np.std}[a](A))
+            key = ("agg_variant", a, case["variant"])
+        elif form == "redim":
+            M3 = values([2, 3], d, 31)
+            W3, V2 = values([3], d, 32), values([2], d, 33)
+            tm = case["tmpl"]
+            if tm == "redim_dot_ok":
+                expected = np.dot(M3, W3)
+            elif tm == "redim_dot_mismatch":
+                expected = None
+            elif tm == "redim_rank":
+                expected = np.array(sorted(M3.flatten().tolist(), reverse=True)[4])
+            else:
+                expected = np.array(M3.sum())
+            key = ("redim", tm)
         elif form == "agg":
             A = values(case["s1"], d, 6)
             a = case["agg"]
@@ -294,6 +347,38 @@ def run_case(case):
         elif form == "elem_nested":
             a, b = make_el(m, "converter", "a", A), make_el(m, "converter", "b", B)
             expr = wrap_dsl(case["wrapper"], pyop[case["op"]](a, b))
+        elif form == "dot_expr":
+            env = dict(A=make_el(m, "converter", "A", A), B=make_el(m, "converter", "B", B), C=make_el(m, "converter", "C", C),
+                       M=make_el(m, "converter", "M", M), N=make_el(m, "converter", "N", N), V=make_el(m, "converter", "V", V), W=make_el(m, "converter", "W", W))
+            expr = eval(case["tmpl"], {}, env)
+        elif form == "agg_variant":
+            v = case["variant"]
+            if v == "flow_negative":
+                a = m.flow("a")
+                a.setup_vector(3, base)
+            elif v == "stock_rate":
+                a = m.stock("a")
+                a.setup_vector(3, [10.0, 10.0, 10.0])
+                for i in range(3):
+                    a[i].equation = base[i]
+            else:
+                a = m.converter("a")
+                a.setup_vector(3, [2.0, -5.0, 1.0 + 0.5 * d])
+            expr = a.arr_rank(case["rank"]) if case["agg"] == "rank" else getattr(a, "arr_" + case["agg"])()
+        elif form == "redim":
+            Mx = m.converter("Mx")
+            Mx.setup_matrix([2, 2], [[1.0, 2.0], [3.0, 4.0]])
+            w2 = make_el(m, "converter", "w2", np.array([1.0, 1.0]))
+            first = m.converter("first")
+            first.equation = Mx.dot(w2)            # the matrix is used once with its first shape
+            _ = first[0](0.0)
+            r0 = m.converter("r0")
+            r0.equation = Mx.arr_rank(1)
+            _ = r0(0.0)
+            Mx.setup_matrix([2, 3], [[float(x) for x in row] for row in M3])     # ... and then re-dimensioned
+            w3, v2 = make_el(m, "converter", "w3", W3), make_el(m, "converter", "v2", V2)
+            expr = {"redim_dot_ok": lambda: Mx.dot(w3), "redim_dot_mismatch": lambda: Mx.dot(v2),
+                    "redim_rank": lambda: Mx.arr_rank(5), "redim_sum": lambda: Mx.arr_sum()}[case["tmpl"]]()
         elif form == "agg":
             a = make_el(m, case["k1"], "a", A)
             expr = a.arr_rank(case["rank"]) if case["agg"] == "rank" else getattr(a, "arr_" + case["agg"])()
@@ -333,6 +418,8 @@ def run_case(case):
         else:
             res = m.converter("r")
             res.equation = expr
+            if form == "agg_variant" and case["variant"] == "reassigned":
+                a[1] = 10.0          # re-assigned after the aggregating equation was written
         # ---------- read back ----------
         if form == "named":
             got = {n: float(res[n](t)) for n in (case["n1"] if expected is None else expected)}
